@@ -291,17 +291,41 @@ def c05(w):
                 if last[0] == "done":
                     want = True
                 elif last[0] == "ret":
-                    want = last[1] if last[1] is not None else False
+                    want = last[1] if last[1] is not None else "falsy"
                 else:
                     want = None
-            if want is not None and done != want:
+            if want == "falsy":
+                if done:
+                    v.append(("doer-done:self-completed:%s:None" % _cls(w, n),
+                              "doer %s returned None on its own but done is %r" % (n, done)))
+            elif want is not None and done != want:
                 v.append(("doer-done:self-completed:%s:%r" % (_cls(w, n), want),
                           "doer %s returned %r on its own but done is %r" % (n, want, done)))
         else:
+            if w.kind[n] == "D" and node.always and not _alive_kids_at_close(w, n):
+                # an idle always-DoDoer reports done=True while it waits for more doers; hio's own
+                # test_dodoer_always pins that value after a forced close: outside the property's domain
+                continue
             if done is True:
                 v.append(("doer-done:true-without-return:" + _cls(w, n),
                           "doer %s was %s but done is True" % (n, "/".join(x for x in evs if x in ("cease", "abort")) or "not finished")))
     return v
+
+
+def _alive_kids_at_close(w, n):
+    idx = [i for i, e in enumerate(w.trace) if e[0] == n and e[1] in ("cease", "abort", "exit_begin")]
+    if not idx:
+        return []
+    b = idx[0]
+    ent = {}
+    ex = {}
+    for i, e in enumerate(w.trace):
+        if w.parent.get(e[0]) == n:
+            if e[1] == "enter":
+                ent.setdefault(e[0], i)
+            if e[1] == "exit":
+                ex.setdefault(e[0], i)
+    return [k for k in ent if ent[k] < b and ex.get(k, 1 << 30) > b]
 
 
 # ---------------------------------------------------------------------------
@@ -388,7 +412,10 @@ def c06(w):
                 entered = any(e[0] == a and e[1] == "enter" for e in tr[:t0])
                 exited = any(e[0] == a and e[1] == "exit" for e in tr[:t0])
                 mine = [e[1] for e in win if e[0] == a and e[1] != "exit_begin"]
-                later = [e for e in tr[t1:] if e[0] == a]
+                readd = [x["t0"] for x in w.calls if x["op"] == "extend" and x["t0"] >= t1 and x["owner"] == o
+                         and (a in x["args"])]
+                tend = readd[0] if readd else len(tr)
+                later = [e for e in tr[t1:tend] if e[0] == a]
                 if selfish:
                     if "cease" in mine or "exit" in mine:
                         v.append(("remove-self-closed:" + ocls(o), "doer %s removing itself was closed inside remove()" % a))
@@ -402,7 +429,7 @@ def c06(w):
                 if later:
                     v.append(("removed-runs-again:" + ocls(o), "doer %s had events %s after its removal" % (a, [e[1] for e in later][:4])))
                 for dsc in _descendants(w, a):
-                    if any(e[0] == dsc for e in tr[t1:]):
+                    if any(e[0] == dsc for e in tr[t1:tend]):
                         v.append(("removed-descendant-runs:" + ocls(o), "descendant %s of removed %s had events after removal" % (dsc, a)))
             for a in c["args"]:
                 if a not in cur:
